@@ -6,6 +6,7 @@ import (
 	"fmt"
 	"os"
 	"path/filepath"
+	"regexp"
 	"strings"
 )
 
@@ -61,4 +62,24 @@ func recovered(f func()) (p any) {
 	}()
 	f()
 	return nil
+}
+
+var hxRe = regexp.MustCompile(`\(hx "([0-9a-f]*)"\)`)
+
+// internHex replaces every (hx "…") literal by a constant defined once at the
+// top of the case file (Coq parses long string literals slowly).
+func internHex(body string) (defs string, out string) {
+	names := map[string]string{}
+	var sb strings.Builder
+	out = hxRe.ReplaceAllStringFunc(body, func(m string) string {
+		h := hxRe.FindStringSubmatch(m)[1]
+		if n, ok := names[h]; ok {
+			return n
+		}
+		n := fmt.Sprintf("s_%d", len(names))
+		names[h] = n
+		fmt.Fprintf(&sb, "Definition %s : bstr := Eval vm_compute in (hx \"%s\").\n", n, h)
+		return n
+	})
+	return sb.String(), out
 }
